@@ -5,7 +5,7 @@ MUT=${MUTREPO:-/root/work/mutrepo}
 [ -d "$MUT" ] || git -C /repo worktree add -q --detach "$MUT" HEAD
 git -C "$MUT" checkout -q --detach "$(git -C /repo rev-parse HEAD)"
 git -C "$MUT" checkout -q -- .
-declare -A MAP=( [ade1d61]="C20 C14" [81aa2c4]="C13" [f10aca0]="C02 C01" [25f155d]="C01 C02" [8f70340]="C17" [f6b31c7]="C07" [1ceef1e]="C07" [264b238]="C08" [1e4a5d3]="C10 C11" [de62d31]="C05" [610e605]="C05" [2dc35f3]="C04" [e7ca3ce]="C16" [1462441]="C17" [f9ef398]="C10" [71016ec]="C02" [f7c79e5]="C05" )
+declare -A MAP=( [ade1d61]="C20 C14" [81aa2c4]="C13" [f10aca0]="C02 C01" [25f155d]="C01 C02" [8f70340]="C17" [f6b31c7]="C07" [1ceef1e]="C07" [264b238]="C08" [1e4a5d3]="C10 C11" [de62d31]="C05" [610e605]="C05" [2dc35f3]="C04" [e7ca3ce]="C16" [1462441]="C17" [7886526]="C10 C16" [71016ec]="C02" [f7c79e5]="C05" )
 for c in "${!MAP[@]}"; do
   git -C /repo diff $c~1 $c | git -C "$MUT" apply -R || { echo "cannot revert $c"; git -C "$MUT" checkout -q -- .; continue; }
   for p in ${MAP[$c]}; do
